@@ -302,6 +302,10 @@ def mon_c07(h, outs):
 
 
 # ------------------------------------------------------------------ C08
+PLACEHOLDER_USERS = ("get", "getAttributes", "getAttributeList", "activate", "revoke", "destroy", "encrypt", "decrypt",
+                     "sign", "signatureVerify", "mac", "setAttribute", "modifyAttribute", "deleteAttribute")
+
+
 def mon_c08(h, outs):
     fails = []
     for i, j, o, before, after, pol in iter_requests(h, outs):
@@ -332,6 +336,22 @@ def mon_c08(h, outs):
         else:
             if len(rs) != len(items):
                 fails.append(("c08:continue-skipped-items", "%d results for %d items under Continue" % (len(rs), len(items)), i))
+        # the ID placeholder: an item that names no identifier works on the object the most recent successful creating
+        # item of this batch reported - whatever failed in between
+        for k, (it, r) in enumerate(zip(items, rs)):
+            if it["op"] not in PLACEHOLDER_USERS or it.get("uid") is not None:
+                continue
+            want = batch_placeholder(items, rs, k)
+            if want is None:
+                continue
+            d = r.get("data") or {}
+            if r.get("status") == "ok" and d.get("uid") is not None and str(d.get("uid")) != str(want):
+                fails.append(("c08:placeholder-addressed-another-object",
+                              "item %d (%s, no identifier) worked on %s; the batch created %s" % (k, it["op"], d.get("uid"), want), i))
+            if r.get("status") != "ok" and "locate object: None" in (r.get("msg") or ""):
+                fails.append(("c08:placeholder-lost",
+                              "item %d (%s, no identifier) was answered %r although an earlier item of the batch "
+                              "created %s" % (k, it["op"], r.get("msg"), want), i))
         if before is not None and after is not None:
             if all(r.get("status") != "ok" for r in rs) and before.get("objs") != after.get("objs"):
                 fails.append(("c08:failed-items-left-trace", "every item failed but the store changed", i))
@@ -369,6 +389,39 @@ def mon_c15(h, outs):
                                   "%s of object %s changed %r -> %r (ops %s)" % (f, u, ob[f], a[u][f], [it["op"] for it in items]), i))
             if attr_only and a[u]["state"] != ob["state"]:
                 fails.append(("c15:state-changed-by-attribute-op", "state of %s changed by attribute operations" % u, i))
+        # a successful ModifyAttribute of one instance of a multi-valued attribute replaces THAT instance in place:
+        # the other instances keep their value and their position (index)
+        if len(items) == 1 and items[0]["op"] == "modifyAttribute" and "results" in o and len(o["results"]) == 1 \
+                and o["results"][0].get("status") == "ok":
+            it = items[0]
+            u = it.get("uid")
+            ver = j["req"]["version"]
+            if u in b and u in a:
+                if ver < 20 and it.get("attr"):
+                    nm, idx, cur, new = it["attr"]["name"], it["attr"].get("index") or 0, None, it["attr"]["value"]
+                else:
+                    nm = (it.get("new") or {}).get("name")
+                    idx, cur, new = None, (it.get("current") or {}).get("value"), (it.get("new") or {}).get("value")
+                fld = {"Name": "names", "Application Specific Information": "appinfo", "Object Group": "groups"}.get(nm)
+
+                def plain(v):
+                    if v is None:
+                        return None
+                    if fld == "appinfo":
+                        return [v.get("ns"), v.get("d")]
+                    return v.get("v")
+                if fld is not None and new is not None:
+                    was = [list(x) if isinstance(x, (list, tuple)) else x for x in b[u][fld]]
+                    now = [list(x) if isinstance(x, (list, tuple)) else x for x in a[u][fld]]
+                    if idx is None:
+                        c = plain(cur)
+                        idx = was.index(c) if c in was else None
+                    if idx is not None and 0 <= idx < len(was):
+                        want = was[:idx] + [plain(new)] + was[idx + 1:]
+                        if now != want and sorted(map(str, now)) == sorted(map(str, want)):
+                            fails.append(("c15:modified-instance-moved:%s" % nm,
+                                          "ModifyAttribute of instance %d of %s on object %s: instances were %s, are now "
+                                          "%s (expected %s: the others keep their position)" % (idx, nm, u, was, now, want), i))
         if attr_only and "results" in o:
             targets = set(it.get("uid") for it, r in zip(items, o["results"]) if r.get("status") == "ok")
             for u, ob in b.items():
